@@ -1,7 +1,7 @@
 """C01 - value-flow facts hold in every UB-free execution.
 
-1. Programs: the exhaustive core enumerated by TLC (spec/ProgGen.tla CorePrograms; a seeded sample of it in the quick
-   tier) plus seeded programs of the generator profiles arith / cond / loop / ptr / mix (drivers/minic_gen.py).
+1. Programs: the exhaustive core enumerated by TLC (spec/ProgGenCore.tla: all programs with one statement in the quick
+   tier, with one or two statements in the thorough tier) plus seeded programs of the generator profiles arith / cond / loop / ptr / mix (drivers/minic_gen.py).
 2. The hooked cppcheck analyses them (50 functions per translation unit, --dump, --platform); drivers/dump2facts.py turns
    the known / impossible / symbolic values of the <valueflow> section into facts keyed by AST node.
 3. TLC model-checks spec/MiniC.tla: every program on every input vector of its boundary-value domain, invariant
@@ -42,17 +42,16 @@ PROFILES = ["arith", "cond", "loop", "ptr", "mix"]
 
 
 def population(tier, seed):
-    rng = random.Random(seed)
-    trees = minic.core_trees()
+    # core: every program with one statement (quick) / one or two statements (thorough) between prologue and return
+    trees = minic.core_trees(1 if tier == "quick" else 2)
     core_total = len(trees)
+    idx = list(range(len(trees)))
     if tier == "quick":
-        idx = sorted(rng.sample(range(len(trees)), 100))
-        per_profile = 22
-        per_profile16 = 10
+        per_profile = 18
+        per_profile16 = 8
     else:
-        idx = list(range(len(trees)))
-        per_profile = 300
-        per_profile16 = 120
+        per_profile = 150
+        per_profile16 = 60
     progs = [minic.flatten_core(trees[i], "c%05d" % i, PLAT) for i in idx]
     ncore = len(progs)
     for j, prof in enumerate(PROFILES):
@@ -83,7 +82,7 @@ def main(tier, seed, replay=None):
     if replay:
         return minic.replay(PID, replay)
     progs, ncore, core_total = population(tier, seed)
-    sizes = (30, 300, 150) if tier == "quick" else (80, 400, 1000)
+    sizes = (30, 300, 150) if tier == "quick" else (60, 400, 800)
     rc, _cov = minic.run_check(PID, tier, seed, progs, "valueflow", sizes, ncore=ncore, core_total=core_total,
                                assumptions=ASSUMPTIONS)
     return rc
